@@ -779,6 +779,10 @@ func (e *specEnv) call(ex SCall) Value {
 	case "asint":
 		v := arg(0)
 		return Value{T: it, Term: v.Term}
+	case "kindOf":
+		// kindOf(t): the reflect.Kind of a reflect.Type value, as an integer (the same symbol the model of Type.Kind uses)
+		v := arg(0)
+		return Value{T: it, Term: c.App("rt_kind", SInt, v.Term)}
 	}
 	// user spec function
 	if sf := x.p.Contracts.Specs[e.pkgPath+"::"+fn.Name]; sf != nil {
